@@ -196,6 +196,10 @@ pub fn worker(ctx: &mut Ctx) {
                 ctx.exec(&Case::new("C01", "numeric", *planner, Ty::F32, DIRS[(i + pi) % 2], n).with_entry(ENTRIES[(i + pi) % 4]).with_input(input.clone()));
                 if n <= 1 << 16 || ctx.tier == Tier::Thorough && n <= 1 << 19 {
                     ctx.exec(&Case::new("C01", "numeric", *planner, Ty::F64, DIRS[(i + pi + 1) % 2], n).with_entry(ENTRIES[(i + pi + 2) % 4]).with_input(input));
+                } else if ctx.tier == Tier::Thorough && n > 1 << 21 {
+                    // byte-size thresholds (e.g. "above 32 MiB of data") are reached by f64 at half the length: the multi-million
+                    // landmarks also in f64 (one direction per length, so that the double-double reference is shared)
+                    ctx.exec(&Case::new("C01", "numeric", *planner, Ty::F64, DIRS[i % 2], n).with_entry(ENTRIES[(i + pi + 2) % 4]).with_input(input));
                 }
             }
             if ctx.done() {
